@@ -278,7 +278,11 @@ def make_enc_view(cls, dialect):
             rlist = []
 
             def pack_fn(x, sx=sx, tree=tree, rlist=rlist):
-                st = pysym.State({"x": x})
+                env = {"x": x}
+                fvals = getattr(ex, "flagvals", {}) or {}
+                for nm in ("omit_none", "by_alias", "context", "dialect"):
+                    env[nm] = Tm(fvals[nm]) if nm in fvals else Ob(getattr(ex, "flag_defaults", {}).get(nm))
+                st = pysym.State(env)
                 ctx = pysym.EvalCtx()
                 v = sx.eval(tree, st, ctx)
                 hyps.extend(ctx.hyps)
